@@ -336,7 +336,8 @@ func gen(c *lib.Ctx) {
 		}
 	}
 	// odd sums: truncation toward zero, both signs
-	for _, a := range [][3]int64{{3, 0, 0}, {0, 3, 0}, {1, 0, -1}, {0, 1, -1}, {1, 2, 0}, {2, 1, 0}, {0, 1, 0}, {1, 0, 0}, {5, 2, -7}} {
+	for _, a := range [][3]int64{{3, 0, 0}, {0, 3, 0}, {1, 0, -1}, {0, 1, -1}, {1, 2, 0}, {2, 1, 0}, {0, 1, 0}, {1, 0, 0}, {5, 2, -7},
+		{-3, 0, 0}, {0, -3, 0}, {-1, 0, 0}, {0, -1, 0}, {-1, -2, 0}, {-2, 1, 5}, {1, -2, -5}, {-5, -2, 7}, {-1, 0, 1}, {0, -1, 1}} {
 		formulas(c, now, later, a[0], a[1], a[2], 0, 0, 37*e9)
 	}
 
@@ -432,6 +433,11 @@ func gen(c *lib.Ctx) {
 			if r.Chance(10) {
 				d1 = r.Range(0, lim)
 				d3 = d1
+			}
+			if r.Chance(10) {
+				// negative measured delays (corrections larger than the raw difference)
+				d1, d3 = r.Range(-1000, 1000), r.Range(-1000, 1000)
+				c.Count("formulas:negative-delay")
 			}
 			c1, c3 := r.Range(0, 100000), r.Range(0, 100000)
 			if r.Chance(10) {
